@@ -9,6 +9,7 @@ drv_bytes: one script line = one op sequence on a fresh object
            tidy ; reset ; seek <off> <whence>
 
   <payload> = hex string | `-` (empty) | `#<n>:<s>` (n bytes, byte j = (s+j) mod 256)
+            | `@<n>:<s>` (n bytes, byte j = byte (j mod 4) of the little-endian uint32 (s<<22)+j/4; large chunks)
 
 output: per-op observations joined by ` ; `
   buffer:  <result> / <Bytes> <Len> <String> <Seek(0,Current)> <Cap>
@@ -18,13 +19,17 @@ output: per-op observations joined by ` ; `
 namespace Got.Drv.Bytes
 open Got.Model.Bytes Got.Drv
 
-/-- CRC-32 (IEEE), bitwise -/
-def crcByte (crc : UInt32) (b : Nat) : UInt32 :=
-  let c := crc ^^^ (UInt32.ofNat (b % 256))
+/-- CRC-32 (IEEE): table entry for one byte value -/
+def crcEntry (b : Nat) : UInt32 :=
   let rec go : Nat → UInt32 → UInt32
     | 0, c => c
     | k + 1, c => go k (if c &&& 1 = 1 then (c >>> 1) ^^^ 0xEDB88320 else c >>> 1)
-  go 8 c
+  go 8 (UInt32.ofNat (b % 256))
+
+def crcTable : Array UInt32 := Array.ofFn (n := 256) (fun i => crcEntry i.val)
+
+def crcByte (crc : UInt32) (b : Nat) : UInt32 :=
+  crcTable[((crc ^^^ UInt32.ofNat (b % 256)) &&& 0xFF).toNat]! ^^^ (crc >>> 8)
 
 def crc32 (bs : List Nat) : UInt32 := (bs.foldl crcByte 0xFFFFFFFF) ^^^ 0xFFFFFFFF
 
@@ -40,8 +45,18 @@ def rdOpt : Option (List Nat) → String
   | some bs => rd bs
   | none => "panic"
 
+def bigPayload (n st : Nat) : List Nat :=
+  (List.range n).map (fun j => ((st * 4194304 + j / 4) >>> (8 * (j % 4))) % 256)
+
 def parsePayload? (s : String) : Option (List Nat) :=
-  if s.startsWith "#" then
+  if s.startsWith "@" then
+    match (s.drop 1).toString.splitOn ":" with
+    | [n, st] =>
+      match n.toNat?, st.toNat? with
+      | some n, some st => some (bigPayload n st)
+      | _, _ => none
+    | _ => none
+  else if s.startsWith "#" then
     match (s.drop 1).toString.splitOn ":" with
     | [n, st] =>
       match n.toNat?, st.toNat? with
@@ -83,7 +98,12 @@ def bObserve (b : Buffer) : Buffer × String :=
   let pos := match r.2 with
     | .seek ret .nil => toString ret
     | _ => "bad"
-  (r.1, joinSp [rdOpt b.bytes?, toString b.len, rdOpt b.string?, pos, toString b.capacity])
+  -- String() is rendered separately from Bytes() only if the two model values differ (saves one CRC pass per op)
+  let bv := b.bytes?
+  let st := b.string?
+  let sby := rdOpt bv
+  let sst := if st == bv then sby else rdOpt st
+  (r.1, joinSp [sby, toString b.len, sst, pos, toString b.capacity])
 
 def bRun (ops : List String) : String :=
   let rec go (b : Buffer) : List String → List String → List String
